@@ -2,7 +2,8 @@
 # Apply a patch to the scratch worktree /var/tmp/repo-head (clean HEAD of /repo), run the given checks on it, undo.
 # usage: tools/try_patch.sh <patch.diff> C02 [C07 ...]
 P=$(realpath "$1"); shift
-WT=/var/tmp/repo-head
+WT=${TP_WT:-/var/tmp/repo-head}
+[ -d "$WT" ] || git -C /repo worktree add --detach "$WT" HEAD >/dev/null 2>&1   # remove it afterwards: git -C /repo worktree remove --force $WT
 git -C $WT checkout -q -- . ; git -C $WT clean -fdq core interop cli bench 2>/dev/null
 git -C $WT checkout -q --detach $(git -C /repo rev-parse HEAD)
 git -C $WT apply "$P" || { echo "patch does not apply"; exit 2; }
